@@ -17,10 +17,10 @@ def jobs(tier, names=None):
         d = {"DISASM_FN": c["disasm"], "DISASM_HDR": '"%s"' % c["hdr"], "NBYTES": c["nbytes"], "BASE": c["base"],
              "MINLEN": c["minlen"], "MAXLEN": c["maxlen"], "FLAGS": '"%s"' % c["flags"] if False else c["flags"], "ENDIAN": c["endian"], "LOCALITY": None}
         js.append(vp.Job("disasm_total.%s" % n, "disasm_total.cpp", d, max_paths=60000 if tier == "quick" else 400000,
-                         timeout=240 if tier == "quick" else 1500, allow_partial=True, min_completed=20, render_classes=2, merge_ptrs=True, support_bits=10))
+                         timeout=240 if tier == "quick" else 600, allow_partial=True, min_completed=20, render_classes=2, merge_ptrs=True, support_bits=10))
         # the same harness explored false-branch-first: reaches the 'no table row matches' / undefined-opcode paths at once
         js.append(vp.Job("disasm_total.%s.ff" % n, "disasm_total.cpp", d, max_paths=60000 if tier == "quick" else 400000,
-                         timeout=120 if tier == "quick" else 600, allow_partial=True, min_completed=1, render_classes=2, false_first=True, merge_ptrs=True, support_bits=10))
+                         timeout=120 if tier == "quick" else 300, allow_partial=True, min_completed=1, render_classes=2, false_first=True, merge_ptrs=True, support_bits=10))
     return js
 
 
